@@ -345,6 +345,68 @@ def runSeqObs (cap : Nat) (fl : Bool) : St → List (List Op) → List (St × Li
   | _, [] => []
   | s, p :: ps => let r := runSnaps s p; r :: runSeqObs cap fl (reset r.1 cap fl) ps
 
+/-! ## an underlying writer that refuses invalid status codes
+
+net/http's connection writer and httptest.ResponseRecorder panic ("invalid WriteHeader code")
+when the FIRST `WriteHeader` they get carries a code outside 100..999 — before they record or
+send anything.  `Response.WriteHeader` has by then set `Status` and run the before-hooks; the
+panic leaves it before `Committed = true`, and it aborts whatever helper made the call.
+`step` above is the behaviour on a writer that accepts every code; `stepS true` adds the
+refusal.  (Codes themselves are opaque to the rest of the model: 0 is special only as "no
+pending status", 300..308 for Redirect.) -/
+
+def validCode (c : Nat) : Bool := decide (100 ≤ c) && decide (c ≤ 999)
+
+/-- the status an implicit commit (`Write`, `Flush`) uses: `Status == 0` becomes 200 -/
+def pendOf (p : Nat) : Nat := if p = 0 then 200 else p
+
+/-- if the first thing `op` does to an UNCOMMITTED response is `Response.WriteHeader(code)`:
+    the state right before that call (the helper's header-map and preset effects applied) and
+    the code -/
+def commitAttempt (s : St) : Op → Option (St × Nat)
+  | .writeHeader c => some (s, c)
+  | .noContent c => some (s, c)
+  | .write _ => some (s, pendOf s.status)
+  | .flush | .flushRC | .flushFE => some (s, pendOf s.status)
+  | .copy chunks _ => if chunks.filter (· ≠ 0) = [] then none else some (s, pendOf s.status)
+  | .json c _ ok => if ok then some ({ writeCT s ctJSON with status := c }, pendOf c) else none
+  | .blob c ct _ => some (writeCT s ct, c)
+  | .stream c _ _ => some (writeCT s ctStream, c)
+  | .xmlBlob c _ => some (writeCT s ctXML, c)
+  | .xml c _ _ => some (writeCT s ctXML, c)
+  | .jsonpBlob c _ _ => some (writeCT s ctJS, c)
+  | .jsonp c _ _ _ => some (writeCT s ctJS, c)
+  | .render c _ ok => if ok then some (writeCT s ctHTML, c) else none
+  -- Redirect only forwards 300..308, ServeContent sends 200: always valid
+  | .redirect _ | .file _ _ _ _ => none
+  | .before _ | .after _ | .unwrap | .hijack => none
+
+/-- `Response.WriteHeader(c)` whose forward to the writer panics: `Status` set, before-hooks
+    run, nothing sent, `Committed` still false -/
+def abortCommit (s : St) (c : Nat) : St := emit { s with status := c } (s.before.map .runB)
+
+/-- one operation on a writer that refuses invalid codes iff `strict` -/
+def stepS (strict : Bool) (s : St) (op : Op) : St × Ret :=
+  if strict && !s.committed then
+    match commitAttempt s op with
+    | some (s', c) => if validCode c then step s op else (abortCommit s' c, ⟨0, true⟩)
+    | none => step s op
+  else step s op
+
+def runS (strict : Bool) (s : St) (prog : List Op) : St :=
+  prog.foldl (fun s o => (stepS strict s o).1) s
+
+def runSnapsS (strict : Bool) : St → List Op → St × List Snap
+  | s, [] => (s, [])
+  | s, o :: os =>
+    let (s, r) := stepS strict s o
+    let (sEnd, l) := runSnapsS strict s os
+    (sEnd, snap s r :: l)
+
+def runSeqObsS (strict : Bool) (cap : Nat) (fl : Bool) : St → List (List Op) → List (St × List Snap)
+  | _, [] => []
+  | s, p :: ps => let r := runSnapsS strict s p; r :: runSeqObsS strict cap fl (reset r.1 cap fl) ps
+
 /-! ## wire -/
 open Wire
 
@@ -394,12 +456,13 @@ def encReq (x : St × List Snap) : List String :=
   encList encSnap x.2 ++ [toString x.1.raw.sentCt, encBool x.1.raw.sentLoc, toString x.1.raw.sentDisp]
     ++ encList encEv x.1.trace
 
-/-- line: `status0 cap canFlush nprog (nops op*)*` → `nprog` then per request
+/-- line: `status0 cap canFlush strict nprog (nops op*)*` → `nprog` then per request
     `nsteps (committed status size ncalls sent body flushes warns ret err)* sentCt sentLoc sentDisp ntrace (code arg)*` -/
 def runLine (line : String) : String :=
-  match parseLine (do let p ← nat; let cap ← nat; let fl ← bool; let progs ← list (list pOp);
-                      pure (p, cap, fl, progs)) line with
+  match parseLine (do let p ← nat; let cap ← nat; let fl ← bool; let strict ← bool
+                      let progs ← list (list pOp); pure (p, cap, fl, strict, progs)) line with
   | none => "bad-op"
-  | some (p, cap, fl, progs) => render (encList encReq (runSeqObs cap fl (init p cap fl) progs))
+  | some (p, cap, fl, strict, progs) =>
+    render (encList encReq (runSeqObsS strict cap fl (init p cap fl) progs))
 
 end C06
